@@ -15,6 +15,7 @@ import (
 	"os"
 	"sort"
 	"strings"
+	"sync"
 	"testing"
 
 	"github.com/gorilla/mux"
@@ -356,7 +357,7 @@ func TestC12Iso(t *testing.T) {
 // ---------------------------------------------------------------------------------
 // C16 — the read API serves exactly the stored state
 
-const ruleC16 = "generated histories over 2-4 logs, both storages; after every request: GET of every known ID, unknown hex IDs and odd IDs through the registered mux handlers and through the bundled client over an in-memory transport, and the log list; non-trivial = a GET issued after >=1 growth on that log or after a refused first submission; distinct by case hash"
+const ruleC16 = "generated histories over 2-4 logs, both storages; after every request: GET of every known ID, unknown hex IDs and odd IDs through the registered mux handlers and through the bundled client over an in-memory transport, and the log list; at the end 8 readers issue 320 GETs for different IDs concurrently; non-trivial = a GET issued after >=1 growth on that log or after a refused first submission; distinct by case hash"
 
 var profC16 = vlib.Profile{
 	Prop: "C16", MinLogs: 2, MaxLogs: 4, MinOps: 3, MaxOps: 20,
@@ -543,6 +544,37 @@ func runC16(c *vlib.HistCase) (bool, []string, error) {
 	}
 	if err := oddCheck(); err != nil {
 		return nontrivial, classes, err
+	}
+	// the same reads issued concurrently for different IDs (the state is quiescent, so
+	// every answer is known): a reader must never be handed another ID's answer
+	ids := append(append([]string{}, e.LogIDs...), vlib.UnknownLogID, strings.Repeat("ab", 32))
+	var wg sync.WaitGroup
+	errs := make(chan error, 16)
+	for g := 0; g < 8; g++ {
+		wg.Add(1)
+		go func(g int) {
+			defer wg.Done()
+			for k := 0; k < 40; k++ {
+				id := ids[(g+k*(g%3+1))%len(ids)]
+				want, held := lastAccepted[id]
+				code, body, _ := serve("GET", fmt.Sprintf(api.HTTPGetCheckpoint, id))
+				if held && (code != 200 || !bytes.Equal(body, want)) {
+					errs <- fmt.Errorf("concurrent GETs for different IDs: GET checkpoint of %s: status %d, body %q; witness holds %q", id[:8], code, body, want)
+					return
+				}
+				if !held && code != 404 {
+					errs <- fmt.Errorf("concurrent GETs for different IDs: GET checkpoint of %s while the witness holds none: status %d body %q, want 404", id[:8], code, body)
+					return
+				}
+			}
+		}(g)
+	}
+	wg.Wait()
+	classes = append(classes, "get:concurrent")
+	select {
+	case err := <-errs:
+		return true, classes, err
+	default:
 	}
 	return nontrivial, classes, nil
 }
